@@ -58,9 +58,13 @@ public:
     /// Read part of image defined by View and return the data.
     void read( byte_t* dst, int pos )
     {
-        // jump to scanline
+        // jump to scanline: the rows are stored bottom-up unless the screen origin bit is set
+        long const row = this->_info._screen_origin_bit
+                       ? static_cast< long >( pos )
+                       : static_cast< long >( this->_info._height ) - 1 - pos;
+
         long offset = this->_info._offset
-                    + ( this->_info._height - 1 - pos ) * static_cast< long >( this->_scanline_length );
+                    + row * static_cast< long >( this->_scanline_length );
 
         this->_io_dev.seek( offset );
 
@@ -105,11 +109,6 @@ private:
                 if( this->_info._color_map_length != 0 )
                 {
                     io_error( "Non-indexed targa files containing a palette are not supported." );
-                }
-
-                if( this->_info._screen_origin_bit )
-                {
-                    io_error( "scanline reader cannot read targa files which have screen origin bit set." );
                 }
 
                 switch( this->_info._bits_per_pixel )
